@@ -115,6 +115,9 @@ class If(Expr):
         else:
             if not isinstance(self.elseBranch, If):
                 raise TealInputError("Else-Then block is malformed")
+            if self.thenBranch is not None:
+                # every arm of an If / ElseIf chain must produce the type of the first one
+                require_type(thenBranch, self.thenBranch.type_of())
             self.elseBranch.Then(thenBranch)
         return self
 
